@@ -1,0 +1,20 @@
+//go:build verif
+
+package gohlslib
+
+import "github.com/bluenviron/gohlslib/v2/pkg/storage"
+
+// This file exists only in builds with the "verif" tag. It lets the verification harness in
+// /verif interpose on the storage factory of a started Muxer (storage fault injection). It adds
+// no behaviour to the package.
+
+// VerifWrapStorage replaces the storage factory of a started muxer and of its streams with
+// wrap(current factory).
+func VerifWrapStorage(m *Muxer, wrap func(storage.Factory) storage.Factory) {
+	m.mutex.Lock()
+	defer m.mutex.Unlock()
+	m.storageFactory = wrap(m.storageFactory)
+	for _, s := range m.streams {
+		s.storageFactory = m.storageFactory
+	}
+}
